@@ -1,1 +1,112 @@
-(* Props/C03.v -- stub, to be filled *)
+(* C03 — for every SEQUENCE/SET shape (any mix of mandatory, OPTIONAL, DEFAULT components before
+   and after an extension marker) and every presence pattern, the preamble carries exactly one
+   presence bit per OPTIONAL/DEFAULT root component in order, the extension bit is set iff an
+   extension addition is present, absent components decode as absent, DEFAULT components equal to
+   their default are omitted and decode to the default; the encoder may refuse a value only with
+   the inconsistent-extension error, and only when the first extension addition is absent while a
+   later one is present.
+   (Statements pinned here; proofs in Uper/Proofs.v; model Uper/Writer.v / Uper/Reader.v; the
+   reference layout [seq_assemble] / [ext_part] / [flags_of] / [enc_field] is in Uper/Spec.v and
+   Uper/Proofs.v.)
+
+   Reference layout of a SEQUENCE value, from the per-component results [fes] = (present, bits):
+     not extensible:  flags_of fs fes ++ payload_of fes
+     extensible:      eb :: flags_of root ++ payload_of root ++ xp        with (eb, xp) = ext_part:
+        no addition in the type, or all absent:   (false, [])
+        first addition present:  (true, normally-small (count - 1) ++ one presence bit per addition
+                                        ++ the present additions (open types, see [wraps]))
+        first absent, a later one present:        Err E_EXT_INCONSISTENT. *)
+From A1 Require Import Uper.Spec Uper.Proofs.
+Local Open Scope N_scope.
+
+(** * the preamble *)
+(* the written bits are the reference layout; the presence bits are [presence] of each component
+   ([is_some] for OPTIONAL, [negb (val_eqb default x)] for DEFAULT), and the root components have
+   exactly [std_optional_fields] presence bits *)
+Theorem C03_preamble : forall m fs so fc ea vals w w',
+  wf_ty (TSeq fs so fc ea) -> wst_wf w -> w_scope w = None ->
+  write_ty m (TSeq fs so fc ea) (VSeq vals) w = Ok w' ->
+  exists fes bs, enc_fields m fs vals = Ok fes /\ map fst fes = presences fs vals /\
+    seq_assemble m fs fes ea = Ok bs /\ w_bits w' = w_bits w ++ bs /\
+    N.of_nat (length (flags_of (firstn (root_len fs ea) fs) (firstn (root_len fs ea) fes))) = so.
+Proof. exact seq_preamble. Qed.
+
+Theorem C03_presence_bits : forall m fs vals fes, enc_fields m fs vals = Ok fes ->
+  map fst fes = presences fs vals /\
+  Forall (fun fe => fst fe = false -> snd fe = []) fes.
+Proof. exact enc_fields_presence. Qed.
+
+(** * the extension bit *)
+Theorem C03_ext_bit_iff : forall m afs afe eb xp, ext_part m afs afe = Ok (eb, xp) ->
+  eb = existsb fst afe /\ (eb = false -> xp = []).
+Proof. exact ext_part_bit. Qed.
+
+(** * omitted components; what they decode to follows from the round trip *)
+Theorem C03_omitted_components : forall m ft d x,
+  enc_field m (FOpt, ft) None = Ok (false, []) /\
+  (val_eqb d x = true -> enc_field m (FDef d, ft) (Some x) = Ok (false, []) /\ x = d).
+Proof. exact omitted_components. Qed.
+
+(* decoding returns the written component list: absent OPTIONAL components as None, DEFAULT
+   components equal to their default as the default *)
+Theorem C03_decodes : forall m fs so fc ea vals w w',
+  wf_ty (TSeq fs so fc ea) -> wf_val (TSeq fs so fc ea) (VSeq vals) ->
+  ~ Known_C01 m (TSeq fs so fc ea) (VSeq vals) -> wst_wf w -> w_scope w = None ->
+  write_ty m (TSeq fs so fc ea) (VSeq vals) w = Ok w' ->
+  exists bs, w_bits w' = w_bits w ++ bs /\ w_scope w' = None /\ wst_wf w' /\
+    forall s tail, rsrc s bs tail ->
+      read_ty m (TSeq fs so fc ea) (r_of_src s) = Ok (VSeq vals, r_of_src (src_adv s (bl bs) tail)).
+Proof. exact (fun m fs so fc ea vals => C01_roundtrip_thm m (TSeq fs so fc ea) (VSeq vals)). Qed.
+
+(** * refusals *)
+(* when every component's own encoding succeeds, the writer's answer is the reference layout's,
+   error kind included; the dev-profile "scope not exhausted" assertion never fires *)
+Theorem C03_refusal_exact : forall m fs so fc ea vals fes w,
+  wf_ty (TSeq fs so fc ea) -> wst_wf w -> w_scope w = None ->
+  enc_fields m fs vals = Ok fes ->
+  write_ty m (TSeq fs so fc ea) (VSeq vals) w = w_put w (seq_assemble m fs fes ea).
+Proof. exact seq_write_reference. Qed.
+
+(* the reference layout refuses only with the inconsistent-extension error and only in the stated
+   pattern (the bounds exclude nothing the crate can hold in memory) *)
+Theorem C03_refusal_only : forall m afs afe e, ext_part m afs afe = Err e ->
+  Forall (fun fe => bl (snd fe) < two63) afe -> N.of_nat (length afe) < two64 ->
+  e = E_EXT_INCONSISTENT /\ exists b rest, afe = (false, b) :: rest /\ existsb fst rest = true.
+Proof. exact ext_part_refusal. Qed.
+
+Theorem C03_refusal_complete : forall m fs so fc e vals fes w b rest,
+  wf_ty (TSeq fs so fc (Some e)) -> wst_wf w -> w_scope w = None ->
+  enc_fields m fs vals = Ok fes ->
+  skipn (S (N.to_nat e)) fes = (false, b) :: rest -> existsb fst rest = true ->
+  write_ty m (TSeq fs so fc (Some e)) (VSeq vals) w = Err E_EXT_INCONSISTENT.
+Proof. exact seq_refusal_complete. Qed.
+
+(* all other failures come from a component's own writer *)
+Theorem C03_component_failure : forall m fs so fc ea vals w,
+  wf_ty (TSeq fs so fc ea) -> wst_wf w -> w_scope w = None ->
+  is_ok (enc_fields m fs vals) = false ->
+  is_ok (write_ty m (TSeq fs so fc ea) (VSeq vals) w) = false.
+Proof. exact seq_component_failure. Qed.
+
+(** * non-vacuity: SEQUENCE { a, b OPTIONAL, c DEFAULT 7, ..., d OPTIONAL, e OPTIONAL } *)
+Example C03_nonvacuous :
+  wf_ty ex3_ty /\
+  (exists w', write_ty dev_mode ex3_ty ex3_val w_empty = Ok w' /\
+     w_bits w' = [true; false; false; true] ++ [false; false; false; false; false; false; true] ++ [true; false]
+                 ++ bits_of_bytes [1; 128]) /\
+  write_ty dev_mode ex3_ty ex3_bad w_empty = Err E_EXT_INCONSISTENT /\
+  (exists w', write_ty release_mode ex3_ty ex3_val w_empty = Ok w' /\
+     read_ty release_mode ex3_ty (r_of_src (src_of_bits (w_bits w') (bl (w_bits w'))))
+     = Ok (ex3_val, r_of_src (src_adv (src_of_bits (w_bits w') (bl (w_bits w'))) (bl (w_bits w')) []))).
+Proof. exact nonvacuous_c03. Qed.
+
+Print Assumptions C03_preamble.
+Print Assumptions C03_presence_bits.
+Print Assumptions C03_ext_bit_iff.
+Print Assumptions C03_omitted_components.
+Print Assumptions C03_decodes.
+Print Assumptions C03_refusal_exact.
+Print Assumptions C03_refusal_only.
+Print Assumptions C03_refusal_complete.
+Print Assumptions C03_component_failure.
+Print Assumptions C03_nonvacuous.
